@@ -319,13 +319,13 @@ PROPS["C11"] = {
 
 PROPS["C12"] = {
     "title": "Interior removal yields the non-zero-winding silhouette",
-    "gen_modules": ["PathArith", "Clockwise", "Offset", "SelfIntersect"],
-    "props_modules": ["C01", "C12", "C03Orient", "C20Self"],
+    "gen_modules": ["PathArith", "Clockwise", "Offset", "SelfIntersect", "Consts", "Basis", "Section", "Bounds", "CurveBounds", "Lines", "FatLine", "CurveClip", "CurveLine", "Overlaps", "LinearFallback"],
+    "props_modules": ["C01", "C12", "C03Orient", "C20Self", "C12Self"],
     "corr_n": (300, 4000),
     "search_n": (400, 8000),
     "extended_factor": 2,
     "technique": "Lean 4 theorems about the translated remove-interior / remove-overlapped predicates and the classification-loop model (signed crossing sums, odd-flip rule) + H2 trace replay + winding oracle",
-    "level_text": "Partial. Props/C20Self (self_intersection.rs, which find_self_collisions calls for every edge against itself, generated): the recursion of find_intersection_point_in_loop case by case for any clipper (in_loop_cases), a reported pair is ordered and in 0..1 (self_intersection_ordered) and names close points (self_intersection_close). single_label_predicates: with one label the generated predicate of path_remove_interior_points is 'count != 0' and that of path_remove_overlapped_points is 'count odd'; "
+    "level_text": "Partial. Props/C20Self (self_intersection.rs, which find_self_collisions calls for every edge against itself, generated): the recursion of find_intersection_point_in_loop case by case for any clipper (in_loop_cases), a reported pair is ordered and in 0..1 (self_intersection_ordered) and names close points (self_intersection_close); Props/C12Self.reported_self_intersection_is_close: with the GENERATED curve_intersects_curve_clip as the clipper (run on the cubics of the two halves, any root solvers, any depths) a reported (t1, t2) is two points of the curve within sqrt(12) accuracy, within max(accuracy, 0.05), is_near_to each other, or the clipper's named tiny-section exit - joined from C20Self.in_loop_cases, C02Sound.returned_pairs_are_close and the section identity secCubic_point. single_label_predicates: with one label the generated predicate of path_remove_interior_points is 'count != 0' and that of path_remove_overlapped_points is 'count odd'; "
                   "counter_is_signed_sum: the counter the loop keeps for a label is the signed number of crossings of that label, for every crossing list; remove_interior_rule / remove_overlapped_rule: along every ray "
                   "starting outside, the number of exterior-marked groups is odd exactly when the ray ends at a point of non-zero (resp. odd) count. Model tied by H2 trace replay of every ray. "
                   "NOT proved: crossing detection for self-intersecting input (graph self-collision) and path assembly: search oracle only.",
